@@ -120,6 +120,17 @@ func (m *Muxer) AddElementaryStream(es PMTElementaryStream) error {
 			}
 		}
 	} else {
+		// Automatic PIDs start at startPID and skip the PIDs that can't be used for an elementary stream: the ones
+		// already taken, the PMT PID and the null packets PID
+		if m.nextPID < startPID {
+			m.nextPID = startPID
+		}
+		for !m.isElementaryPIDAvailable(m.nextPID) {
+			if m.nextPID >= PIDNull {
+				return ErrPIDAlreadyExists
+			}
+			m.nextPID++
+		}
 		es.ElementaryPID = m.nextPID
 		m.nextPID++
 	}
@@ -131,6 +142,18 @@ func (m *Muxer) AddElementaryStream(es PMTElementaryStream) error {
 	m.pmtBytes.Reset()
 	m.pmtUpdated = true
 	return nil
+}
+
+func (m *Muxer) isElementaryPIDAvailable(pid uint16) bool {
+	if pid >= PIDNull || m.pm.existsUnlocked(pid) {
+		return false
+	}
+	for _, oes := range m.pmt.ElementaryStreams {
+		if oes.ElementaryPID == pid {
+			return false
+		}
+	}
+	return true
 }
 
 func (m *Muxer) RemoveElementaryStream(pid uint16) error {
